@@ -1028,15 +1028,11 @@ pub fn check_head_mirror(get: &ServeObs, head: &ServeObs, out: &mut Vec<Finding>
         let only_h: Vec<_> = hh.iter().filter(|x| !hg.contains(x)).cloned().collect();
         out.push(f(&["C15"], "head-headers", format!("headers differ: only in GET {:?}, only in HEAD {:?}", show(&only_g), show(&only_h))));
     }
+    // Date / Last-Modified are clock-derived and excluded by the statement: only their presence
+    // must agree (comparing values would make the verdict depend on scheduling delays).
     for name in ["date", "last-modified"] {
-        match (get.hdr(name).and_then(super::date::parse_imf), head.hdr(name).and_then(super::date::parse_imf)) {
-            (Some(a), Some(b)) => {
-                if a.abs_diff(b) > 2 {
-                    out.push(f(&["C15"], "head-clock-header", format!("{name}: GET {a} vs HEAD {b}")));
-                }
-            }
-            (None, None) => {}
-            _ => out.push(f(&["C15"], "head-clock-header", format!("{name} present in only one of GET/HEAD"))),
+        if get.hdr(name).is_some() != head.hdr(name).is_some() {
+            out.push(f(&["C15"], "head-clock-header", format!("{name} present in only one of GET/HEAD")));
         }
     }
     if matches!(head.status, 200..=399 | 416) {
